@@ -279,7 +279,7 @@ class Parser:
             # Hints are keyed by LR state, so a change in any of the grammar
             # files (root or imported) invalidates them.
             grammar_files = [grammar_file, *self.grammar.imported_files]
-            if (
+            if not (
                 not hints_file_compiled.exists()
                 or any(
                     Path(g_file).stat().st_mtime
@@ -288,15 +288,20 @@ class Parser:
                 )
                 or hints_file.stat().st_mtime > hints_file_compiled.stat().st_mtime
             ):
+                # An incomplete file (e.g. left by an interrupted write) is
+                # treated as if there is no compiled file.
+                try:
+                    with open(hints_file_compiled) as f:
+                        loaded = json.load(f)
+                    compiled_hints = {ast.literal_eval(k): v for k, v in loaded.items()}
+                except ValueError:
+                    compiled_hints = None
+            if compiled_hints is None:
                 # Compilation is needed
                 compiled_hints = compile_errors(hints_file)
                 with open(hints_file_compiled, "w") as f:
                     serializable = {str(k): v for k, v in compiled_hints.items()}
                     json.dump(serializable, f)
-            else:
-                with open(hints_file_compiled) as f:
-                    loaded = json.load(f)
-                    compiled_hints = {ast.literal_eval(k): v for k, v in loaded.items()}
 
         del self._in_error_hints
         return compiled_hints
